@@ -97,7 +97,7 @@ func intsEq(a, b []int) bool {
 // screen compares an observation with the expectation TLC emitted (c) and with the relations of the property.
 // It only decides which traces are handed to the trace specification in full; the verdict is the T spec's.
 func screen(x *input, o *obs, c *tcase, xconc string) bool {
-	if len(o.panicked) > 0 {
+	if len(o.panicked) > 0 || o.touched {
 		return true
 	}
 	combBad := func() bool { return !bytes.Equal(o.comb, o.s1) && !bytes.Equal(o.comb, o.s2) }
